@@ -83,7 +83,7 @@ inline float aval(int vs, size_t sf, size_t ch) {
     return (float)(-7 - vs * 50) - (float)sf * 2.0f - (float)ch * 0.125f;
 }
 
-struct Shape { std::vector<std::string> pts, chans; size_t nsub = 0; };
+struct Shape { std::vector<std::string> pts, chans; size_t nsub = 0; bool raggedLast = false; };   // raggedLast: the last sub-frame carries one channel more than the others
 inline Frame buildFrame(const Shape& sh, int vs) {
     Frame f;
     Points P;
@@ -95,6 +95,7 @@ inline Frame buildFrame(const Shape& sh, int vs) {
     for (size_t s = 0; s < sh.nsub; ++s) {
         SubFrame sf;
         for (size_t k = 0; k < sh.chans.size(); ++k) { Channel ch; ch.name(sh.chans[k]); ch.data(aval(vs, s, k)); sf.channel(ch); }
+        if (sh.raggedLast && s + 1 == sh.nsub) { Channel ch; ch.name("zz"); ch.data(aval(vs, s, sh.chans.size())); sf.channel(ch); }
         A.subframe(sf);
     }
     f.add(P, A);
@@ -105,7 +106,7 @@ inline Frame buildFrame(const Shape& sh, int vs) {
 inline FrSnap intendedFrame(const Shape& sh, int vs) {
     FrSnap s;
     for (size_t i = 0; i < sh.pts.size(); ++i) { PtSnap p; p.name = sh.pts[i]; while (!p.name.empty() && p.name.back() == ' ') p.name.pop_back(); p.v[0] = fbits(val(vs, i, 0)); p.v[1] = fbits(val(vs, i, 1)); p.v[2] = fbits(val(vs, i, 2)); p.v[3] = fbits(resid(vs, i)); s.pts.push_back(p); }
-    for (size_t k = 0; k < sh.nsub; ++k) { std::vector<ChSnap> v; for (size_t c = 0; c < sh.chans.size(); ++c) { ChSnap q; q.name = sh.chans[c]; while (!q.name.empty() && q.name.back() == ' ') q.name.pop_back(); q.v = fbits(aval(vs, k, c)); v.push_back(q); } s.subs.push_back(v); }
+    for (size_t k = 0; k < sh.nsub; ++k) { std::vector<ChSnap> v; for (size_t c = 0; c < sh.chans.size(); ++c) { ChSnap q; q.name = sh.chans[c]; while (!q.name.empty() && q.name.back() == ' ') q.name.pop_back(); q.v = fbits(aval(vs, k, c)); v.push_back(q); } if (sh.raggedLast && k + 1 == sh.nsub) { ChSnap q; q.name = "zz"; q.v = fbits(aval(vs, k, sh.chans.size())); v.push_back(q); } s.subs.push_back(v); }
     return s;
 }
 // The shape a conforming frame must have for the object in its CURRENT state (public accessors only).
